@@ -9,6 +9,7 @@ pub mod delivery;
 pub mod meld_audit;
 pub mod orch;
 pub mod resolve_api;
+pub mod time_travel;
 pub mod delta_roundtrip;
 pub mod deltaid;
 pub mod history;
@@ -41,6 +42,7 @@ pub fn run(name: &str, thorough: bool, seed: u64) -> Option<Report> {
         "commit_faults" => Some(commit_faults::run(thorough, seed)),
         "meld_audit" => Some(meld_audit::run(thorough, seed)),
         "resolve_api" => Some(resolve_api::run(thorough, seed)),
+        "time_travel" => Some(time_travel::run(thorough, seed)),
         _ => None,
     }
 }
@@ -64,6 +66,7 @@ pub fn replay(name: &str, case: &Value) -> Value {
         "commit_faults" => commit_faults::replay(case),
         "meld_audit" => meld_audit::replay(case),
         "resolve_api" => resolve_api::replay(case),
+        "time_travel" => time_travel::replay(case),
         _ => json!({"reproduced": false, "error": "unknown oracle"}),
     }
 }
